@@ -1,1 +1,97 @@
-(* placeholder, being written *)
+(* Props/Examples_C15.v — the hypotheses of the C15 theorems are satisfiable on concrete, non-trivial
+   cases (these are TESTS by computation, not the theorems). *)
+From Coq Require Import NArith ZArith List String Bool.
+From IMB Require Import Gen.GenConsts Gen.GenLayout Gen.GenReset Mgr.Ring Mgr.Reset Proofs.ResetProofs
+                        Props.Properties_C15.
+Import ListNotations.
+Local Open Scope N_scope.
+
+(* features of the reference host: AVX512 + VAES/GFNI/SHANI (K1_FORMAT.md) *)
+Definition host_cpu : N := 0xc1fffff.
+Definition a_sse : arch_init := nth 0 arch_inits (mkarch "" 0 [] [] "").
+Definition a_avx512 : arch_init := nth 2 arch_inits (mkarch "" 0 [] [] "").
+
+Example ex_names : ai_name a_sse = "sse"%string /\ ai_name a_avx512 = "avx512"%string.
+Proof. vm_compute. auto. Qed.
+
+(* which variant each (arch, flags) pair gets on the reference host *)
+Example ex_variants :
+  map (fun fl => variant_for host_cpu fl a_sse) [0; 1; 2; 3] = ["sse_t3"; "sse_t1"; "sse_t2"; "sse_t1"]%string /\
+  map (fun fl => variant_for host_cpu fl a_avx512) [0; 1; 2; 3] = ["avx512_t2"; "avx512_t1"; "avx512_t1"; "avx512_t1"]%string.
+Proof. vm_compute. auto. Qed.
+
+(* a manager in the middle of an AVX512 history: ring at slots 10..20, error code set, garbage in
+   every OOO manager (jobs in flight), AVX512-T2 handlers bound *)
+Definition dirty : mgr :=
+  mkmgr (mkst 2160 4320 (fun _ => 0%Z) (fun o => o) 2008)
+        0 (feature_adjust 0 host_cpu) IMB_ARCH_AVX512 2 (Some "avx512_t2"%string)
+        (fun _ => 0) (fun _ a => a mod 251).
+
+Example ex_hyps :
+  In a_sse arch_inits /\ m_flags dirty = m_flags (fresh_alloc host_cpu 0) /\
+  has_flags (m_features dirty) (ai_req a_sse) = true /\
+  has_flags (m_features (fresh_alloc host_cpu 0)) (ai_req a_sse) = true /\
+  has_flags (feature_adjust (m_flags dirty) host_cpu) (ai_req a_sse) = true.
+Proof. vm_compute. intuition. Qed.
+
+(* the theorem applied: AVX512 manager with jobs in flight re-initialised as SSE = fresh SSE manager *)
+Example ex_reinit_other_variant :
+  exists v, find_variant "sse_t3" = Some v /\
+            sched_eq v (arch_init_run host_cpu a_sse true dirty) (arch_init_run host_cpu a_sse true (fresh_alloc host_cpu 0)) /\
+            m_bound (arch_init_run host_cpu a_sse true dirty) = Some (v_name v).
+Proof.
+  destruct ex_hyps as (H1 & H2 & H3 & H4 & H5).
+  destruct (reinit_is_constant host_cpu a_sse dirty (fresh_alloc host_cpu 0) H1 H2 H3 H4 H5) as (v & Hv & Hs & Hb & _).
+  exists v. split; [exact Hv|]. auto.
+Qed.
+
+(* computed directly: ring empty at slot 0, error code cleared, SSE-T3 lane stacks in place of the garbage *)
+Example ex_reinit_computed :
+  let s := arch_init_run host_cpu a_sse true dirty in
+  (earliest (m_ring s), next (m_ring s), errno (m_ring s), m_arch s, m_arch_type s, m_bound s) =
+  ((-1)%Z, 0%Z, 0%Z, IMB_ARCH_SSE, 3, Some "sse_t3"%string) /\
+  read_le (m_ooo s "aes128_ooo"%string) 4512 8 = 0xF76543210 /\       (* unused_lanes, 8 lanes *)
+  read_le (m_ooo s "hmac_sha_1_ooo"%string) 480 8 = 0xFF0100 /\       (* 2 SHA-NI lanes *)
+  m_ooo s "hmac_sha_1_ooo"%string (512 + 64) = 0x80 /\                (* ldata[0].extra_block[64] *)
+  m_ooo s "aes128_ooo"%string 4480 = 255.                             (* lens[0] low byte *)
+Proof. vm_compute. repeat split; reflexivity. Qed.
+
+Example ex_stack_constants :
+  unused_lanes_after "ooo_mgr_aes_reset" 8 = Some 0xF76543210 /\ valid_stack 4 8 0xF76543210 = true /\
+  unused_lanes_after "ooo_mgr_aes_reset" 12 = Some 0xBA9876543210 /\ valid_stack 4 12 0xBA9876543210 = true /\
+  unused_lanes_after "ooo_mgr_zuc_reset" 4 = Some 0xFF03020100 /\ valid_stack 8 4 0xFF03020100 = true /\
+  unused_lanes_after "ooo_mgr_snow3g_reset" 4 = Some 0x3210 /\ valid_stack 4 4 0x3210 = true /\
+  valid_stack 4 8 0xF76543201 = false /\ valid_stack 4 8 0xF7654321 = false /\ valid_stack 4 16 0xF76543210 = false.
+Proof. vm_compute. repeat split; reflexivity. Qed.
+
+(* DOCUMENTED DISCREPANCY (see Mgr/C15_C16_NOTES.md): managers of ooo_mgr_table that a variant's
+   reset_ooo_mgrs() never resets.  They are exactly managers the variant's code never refers to,
+   which is why [reset_covers_every_manager] holds; a stale image stays in the block. *)
+Definition never_reset (v : variant) : list string :=
+  filter (fun f => negb (mem f (reset_fields v))) table_fields.
+
+Example ex_never_reset :
+  map (fun v => (v_name v, never_reset v)) variants =
+  let des := ["des_enc_ooo"; "des_dec_ooo"; "des3_enc_ooo"; "des3_dec_ooo"; "docsis_des_enc_ooo"; "docsis_des_dec_ooo"]%string in
+  [("sse_t1", des); ("sse_t2", des); ("sse_t3", des); ("avx2_t1", des); ("avx2_t2", des); ("avx2_t3", des);
+   ("avx512_t1", []); ("avx512_t2", [])]%string.
+Proof. vm_compute. reflexivity. Qed.
+
+(* managers reset with a lane count of 1 and no lane stack: never scheduled on by that variant *)
+Example ex_single_lane :
+  forallb (fun v => forallb (fun c => negb (snd c =? 1) || negb (mem (fst (fst c)) (v_used v))) (v_resets v)) variants = true.
+Proof. vm_compute. reflexivity. Qed.
+
+(* no_residue instantiated: a machine that reports ring indices and a scheduling byte *)
+Example ex_no_residue :
+  forall ops : list unit,
+  let step := fun (s : mgr) (_ : unit) => (s, (earliest (m_ring s), next (m_ring s), m_bound s)) in
+  runm unit _ step (init_public (fun s => s) host_cpu a_sse dirty) ops =
+  runm unit _ step (init_public (fun s => s) host_cpu a_sse (fresh_alloc host_cpu 0)) ops.
+Proof.
+  intros ops step. destruct ex_hyps as (H1 & H2 & H3 & H4 & H5).
+  destruct (reinit_is_constant host_cpu a_sse dirty (fresh_alloc host_cpu 0) H1 H2 H3 H4 H5) as (v & Hv & _).
+  apply (no_residue unit _ (fun s => s) host_cpu a_sse dirty (fresh_alloc host_cpu 0) v H1 H2 H3 H4 H5 Hv step).
+  - auto.
+  - intros s1 s2 o Hs. split; [|exact Hs]. destruct Hs as (E1 & E2 & _ & _ & _ & _ & _ & E8 & _). unfold step. cbn. congruence.
+Qed.
